@@ -246,3 +246,173 @@ Proof.
 Qed.
 
 End Resolution.
+
+(* ======================================================================== *)
+(* C02, run-time half: closure creation, activation, loads and stores        *)
+From MW Require Import Model.Vm Proofs.VmProofs0 Proofs.TailProofs.
+
+(* the environment object a heap address denotes *)
+Definition env_at (s : vm) (p : N) : option (N * list vcell) :=
+  match heap_get (hp s) p with
+  | Ok (VLexEnv eid) => match tget (envs (st s)) eid with Some l => Some (eid, l) | None => None end
+  | _ => None
+  end.
+
+(* The mutable LOCATION a slot of an environment stands for: the slot itself, or —
+   through ONE indirection — the slot of another environment it points to. *)
+Definition location (s : vm) (p : N) (k : N) : option (N * N) :=
+  match env_at s p with
+  | Some (eid, l) =>
+      match list_get l k with
+      | Some (VLexPtr q k2) => match env_at s q with Some (eid2, _) => Some (eid2, k2) | None => None end
+      | Some _ => Some (eid, k)
+      | None => None
+      end
+  | None => None
+  end.
+
+(* ---- CLOSURE: what each slot of a new closure environment holds (run.rs:518-543) *)
+Definition closure_slot (s : vm) (src : bsrc) (v : vcell) : Prop :=
+  match src with
+  | BIofArgument a => load_arg a s = ROk v s
+  | BIofEnvironment j =>
+      exists eid l cur, env_at s (ep s) = Some (eid, l) /\ list_get l j = Some cur /\
+        v = match cur with VLexPtr _ _ => cur | _ => VLexPtr (ep s) j end
+  | _ => v = VUndef
+  end.
+
+Lemma pure_load_arg a : pure (load_arg a).
+Proof.
+  unfold load_arg. apply pure_bind; [apply pure_get_vm|]. intros s0.
+  apply pure_bind; [apply pure_stack_get|]. intros x.
+  apply pure_bind; [apply pure_as_argc|]. intros n.
+  apply pure_bind; [apply pure_usub|]. intros b. apply pure_stack_get.
+Qed.
+
+Theorem closure_environment_slots envmap s r s' :
+  build_closure_environment envmap s = ROk r s' ->
+  s' = s /\ Forall2 (fun e v => closure_slot s (snd e) v) envmap r.
+Proof.
+  unfold build_closure_environment.
+  match goal with |- ?g _ _ _ = _ -> _ =>
+    assert (H : forall m acc r0 s0, g m acc s = ROk r0 s0 ->
+              s0 = s /\ exists tl, r0 = rev acc ++ tl /\ Forall2 (fun e v => closure_slot s (snd e) v) m tl) end.
+  { induction m as [|[sym src] m IH]; intros acc r0 s0 H0.
+    - cbn in H0. unfold ret in H0. injection H0 as <- <-. split; [reflexivity|].
+      exists []. rewrite app_nil_r. split; [reflexivity|constructor].
+    - cbn in H0. destruct src.
+      + apply IH in H0 as (-> & tl & -> & Hf). split; [reflexivity|].
+        exists (VUndef :: tl). cbn [rev]. rewrite <- app_assoc. split; [reflexivity|].
+        constructor; [reflexivity|exact Hf].
+      + apply IH in H0 as (-> & tl & -> & Hf). split; [reflexivity|].
+        exists (VUndef :: tl). cbn [rev]. rewrite <- app_assoc. split; [reflexivity|].
+        constructor; [reflexivity|exact Hf].
+      + apply bind_pure_ok in H0 as (v & Hv & H0); [|apply pure_load_arg].
+        apply IH in H0 as (-> & tl & -> & Hf). split; [reflexivity|].
+        exists (v :: tl). cbn [rev]. rewrite <- app_assoc. split; [reflexivity|].
+        constructor; [exact Hv|exact Hf].
+      + apply bind_pure_ok in H0 as (s1 & Hs1 & H0); [|apply pure_get_vm]. injection Hs1 as <-.
+        apply bind_pure_ok in H0 as (ev & Hev & H0); [|apply pure_hget].
+        apply bind_pure_ok in H0 as (eid & Heid & H0); [|apply pure_as_lexenv].
+        apply bind_pure_ok in H0 as (cur & Hcur & H0); [|apply pure_env_get].
+        assert (Henv : exists l, env_at s (ep s) = Some (eid, l) /\ list_get l n = Some cur).
+        { unfold hget, lift in Hev. destruct (heap_get (hp s) (ep s)) as [x| | |] eqn:Eh; try discriminate.
+          injection Hev as ->. destruct ev; try discriminate. cbn in Heid. injection Heid as ->.
+          unfold env_get, bindM, env_slots in Hcur.
+          destruct (tget (envs (st s)) eid) as [l|] eqn:El; [|discriminate].
+          destruct (list_get l n) as [c|] eqn:Ec; [|discriminate]. injection Hcur as ->.
+          exists l. unfold env_at. rewrite Eh, El. auto. }
+        destruct Henv as (l & Hl1 & Hl2).
+        assert (Hgo : exists v, v = match cur with VLexPtr _ _ => cur | _ => VLexPtr (ep s) n end /\
+                                 exists acc', acc' = v :: acc /\ True) by eauto.
+        destruct cur; (apply IH in H0 as (-> & tl & -> & Hf); split; [reflexivity|];
+          eexists (_ :: tl); cbn [rev]; rewrite <- app_assoc; split; [reflexivity|];
+          constructor; [exists eid, l; eexists; split; [exact Hl1|]; split; [exact Hl2|reflexivity]|exact Hf]).
+      + apply IH in H0 as (-> & tl & -> & Hf). split; [reflexivity|].
+        exists (VUndef :: tl). cbn [rev]. rewrite <- app_assoc. split; [reflexivity|].
+        constructor; [reflexivity|exact Hf]. }
+  intros H0. apply H in H0 as (-> & tl & -> & Hf). cbn. auto.
+Qed.
+
+(* a captured variable denotes, in the new closure environment, the very location it
+   denotes in the creating activation (given the closure environment is installed at
+   heap address [cp] with the slots just computed, and locations are flat: the cell a
+   pointer leads to does not itself hold a pointer) *)
+Theorem closure_shares_location s j cur eid l :
+  env_at s (ep s) = Some (eid, l) -> list_get l j = Some cur ->
+  forall v, v = match cur with VLexPtr _ _ => cur | _ => VLexPtr (ep s) j end ->
+  match v with
+  | VLexPtr q k2 => match env_at s q with Some (e2, _) => Some (e2, k2) | None => None end
+  | _ => None
+  end = location s (ep s) j.
+Proof.
+  intros He Hl v ->. unfold location. rewrite He, Hl.
+  destruct cur; try (rewrite He; reflexivity). reflexivity.
+Qed.
+
+(* ---- loads and stores go through the location (run.rs:394-401, 424-437) *)
+Theorem load_reads_location s k e j l v :
+  location s (ep s) k = Some (e, j) ->
+  tget (envs (st s)) e = Some l -> list_get l j = Some v ->
+  load_lex_slot k s = ROk v s.
+Proof.
+  unfold location, env_at. intros Hloc Hl Hv.
+  unfold load_lex_slot, bindM, get_vm, hget, lift.
+  destruct (heap_get (hp s) (ep s)) as [x| | |] eqn:Eh; try discriminate.
+  destruct x; try discriminate. cbn [as_lexenv ret].
+  destruct (tget (envs (st s)) eid) as [l0|] eqn:El0; [|discriminate].
+  unfold env_get, bindM, env_slots. rewrite El0.
+  destruct (list_get l0 k) as [c|] eqn:Ec; [|discriminate]. unfold ret.
+  destruct c; try (injection Hloc as <- <-; rewrite El0 in Hl; injection Hl as <-;
+                   rewrite Ec in Hv; injection Hv as <-; reflexivity).
+  (* one indirection *)
+  destruct (heap_get (hp s) env) as [y| | |] eqn:Eh2; try discriminate.
+  destruct y; try discriminate.
+  destruct (tget (envs (st s)) eid0) as [l2|] eqn:El2; [|discriminate].
+  injection Hloc as <- <-. cbn [as_lexenv ret]. rewrite El2 in Hl |- *. injection Hl as <-.
+  rewrite Hv. reflexivity.
+Qed.
+
+Theorem store_writes_location s k e j l v :
+  location s (ep s) k = Some (e, j) ->
+  tget (envs (st s)) e = Some l -> j < len l ->
+  store_lex_slot k v s = ROk tt (with_store s (set_env (st s) e (list_set l j v))).
+Proof.
+  unfold location, env_at. intros Hloc Hl Hj.
+  unfold store_lex_slot, bindM, get_vm, hget, lift.
+  destruct (heap_get (hp s) (ep s)) as [x| | |] eqn:Eh; try discriminate.
+  destruct x; try discriminate. cbn [as_lexenv ret].
+  destruct (tget (envs (st s)) eid) as [l0|] eqn:El0; [|discriminate].
+  unfold env_get, bindM, env_slots. rewrite El0.
+  destruct (list_get l0 k) as [c|] eqn:Ec; [|discriminate]. unfold ret.
+  assert (Hput : forall e0 l1, tget (envs (st s)) e0 = Some l1 -> j < len l1 ->
+            env_put e0 j v s = ROk tt (with_store s (set_env (st s) e0 (list_set l1 j v)))).
+  { intros e0 l1 H1 H2. unfold env_put, bindM, env_slots. rewrite H1.
+    apply N.ltb_lt in H2. rewrite H2. reflexivity. }
+  destruct c; try (injection Hloc as <- <-; apply Hput; assumption).
+  destruct (heap_get (hp s) env) as [y| | |] eqn:Eh2; try discriminate.
+  destruct y; try discriminate.
+  destruct (tget (envs (st s)) eid0) as [l2|] eqn:El2; [|discriminate].
+  injection Hloc as <- <-. cbn [as_lexenv ret]. apply Hput; assumption.
+Qed.
+
+(* two names for one location see each other's assignments: a store through slot k
+   followed by a load through ANY slot k' of ANY environment installed at [ep] that
+   denotes the same location returns the stored value *)
+Theorem shared_location_visible s k v e j l s1 k' :
+  location s (ep s) k = Some (e, j) ->
+  tget (envs (st s)) e = Some l -> j < len l ->
+  store_lex_slot k v s = ROk tt s1 ->
+  location s1 (ep s1) k' = Some (e, j) ->
+  load_lex_slot k' s1 = ROk v s1.
+Proof.
+  intros Hloc Hl Hj Hst Hloc'.
+  rewrite (store_writes_location s k e j l v Hloc Hl Hj) in Hst. injection Hst as <-.
+  eapply load_reads_location; [exact Hloc'| |].
+  - cbn [st with_store envs set_env]. apply tget_tset_same.
+  - unfold list_set, list_get.
+    assert (G : forall (A : Type) (l0 : list A) n x, (n < length l0)%nat -> nth_error (list_set_nat l0 n x) n = Some x).
+    { induction l0 as [|y l0 IH]; intros n x Hn; [cbn in Hn; lia|].
+      destruct n; cbn; [reflexivity|]. apply IH. cbn in Hn. lia. }
+    unfold list_set, list_get. apply G. unfold len in Hj. lia.
+Qed.
